@@ -331,10 +331,16 @@ static void run_op(void){
 H_PRE = COMMON_HEAD + r'''
 void env_step(void);
 void own_step(void);
-#define VERIF_YIELD() env_step()
+/* every atomic block access of the kernels is preceded by VERIF_YIELD_AT(k), k = static site number;
+   -DSITE=k restricts the interference to that site (all its dynamic occurrences) */
+#ifdef SITE
+#define VERIF_YIELD_AT(k) { if ((k) == SITE) env_step(); }
+#else
+#define VERIF_YIELD_AT(k) env_step()
+#endif
 #undef VERIF_CMPXCHG
 #define VERIF_CMPXCHG(T, dst, p, e, n) { T _o = *(p); (dst).f0 = _o; if (_o == (e)) { *(p) = (n); (dst).f1 = 1; own_step(); } else (dst).f1 = 0; }
-#include "uf_y.c"
+#include "uf_ys.c"
 ''' + SPEC + CONC_COMMON + r'''
 void env_step(void){
   if (!started) return;
@@ -373,10 +379,16 @@ int main(){
 H_RG = COMMON_HEAD + r'''
 void env_step(void);
 void own_step(void);
-#define VERIF_YIELD() env_step()
+/* every atomic block access of the kernels is preceded by VERIF_YIELD_AT(k), k = static site number;
+   -DSITE=k restricts the interference to that site (all its dynamic occurrences) */
+#ifdef SITE
+#define VERIF_YIELD_AT(k) { if ((k) == SITE) env_step(); }
+#else
+#define VERIF_YIELD_AT(k) env_step()
+#endif
 #undef VERIF_CMPXCHG
 #define VERIF_CMPXCHG(T, dst, p, e, n) { T _o = *(p); (dst).f0 = _o; if (_o == (e)) { *(p) = (n); (dst).f1 = 1; own_step(); } else (dst).f1 = 0; }
-#include "uf_y.c"
+#include "uf_ys.c"
 #define GHOSTINV 1
 ''' + SPEC + CONC_COMMON + r'''
 int env_taken = 0;
@@ -600,6 +612,8 @@ def _vassert(txt):
 H_SEQ, H_PRE, H_RG, H_THR = (_vassert(h) for h in (H_SEQ, H_PRE, H_RG, H_THR))
 
 OPS = ["union", "sameSet", "find"]
+KFN = ["ds_union", "ds_same", "ds_find"]
+K29 = {}
 IN_NAMES = ["in_b0", "in_b1", "in_b2", "in_b3", "in_t0", "in_t1", "in_t2", "in_t3", "in_x", "in_y"]
 
 
@@ -625,6 +639,22 @@ def _prepare(work):
     ncas = len(re.findall(r"VERIF_CMPXCHG\(", src))
     if ncas < 3:
         raise EngineError("compare-exchange sites missing in the translated kernel (%d): the CAS protocol was not lowered" % ncas)
+    ysrc = open(os.path.join(work, "uf_y.c")).read()
+    cnt = [0]
+
+    def _num(m):
+        cnt[0] += 1
+        return "VERIF_YIELD_AT(%d);" % cnt[0]
+    ysrc = re.sub(r"VERIF_YIELD\(\);", _num, ysrc)
+    open(os.path.join(work, "uf_ys.c"), "w").write(ysrc)
+    starts = [(m.start(), m.group(1)) for m in re.finditer(r"^(?:\w[\w\s\*]*?)\b(\w+)\((?:[^;{}]*)\) \{$", ysrc, re.M)]
+    sites = {}
+    for m in re.finditer(r"VERIF_YIELD_AT\((\d+)\);", ysrc):
+        fn = [f for st, f in starts if st < m.start()][-1]
+        sites.setdefault(fn, []).append(int(m.group(1)))
+    for f in ("ds_find", "ds_union", "ds_same"):
+        if len(sites.get(f, [])) < 4:
+            raise EngineError("atomic access sites of %s not found in the yield translation" % f)
     gen = os.path.join(work, "uf_gen_native.c")
     open(gen, "w").write(GEN_NATIVE)
     drv = os.path.join(work, "drv.c")
@@ -633,6 +663,16 @@ def _prepare(work):
                             runs=[("1", "12"), ("7", "5"), ("99", "3"), ("5", "40")])
     for nm, txt in (("uf_seq.c", H_SEQ), ("uf_pre.c", H_PRE), ("uf_rg.c", H_RG), ("uf_thr.c", H_THR)):
         open(os.path.join(work, nm), "w").write(txt)
+    # loop ids of the yield-mode kernels: the last loop of union/sameSet is the retry loop, the others are findNode loops
+    rc, out, err = sh(["cbmc", os.path.join(work, "uf_pre.c"), "--show-loops", "-I", K.HERE, "-I", work, "-DNN=3", "-DOP=0", "-DEOP=0", "-DENV=1"], timeout=120)
+    loops = {}
+    for fn, idx in re.findall(r"^Loop (ds_find|ds_union|ds_same)\.(\d+):", out, re.M):
+        loops.setdefault(fn, []).append(int(idx))
+    for f in ("ds_find", "ds_union", "ds_same"):
+        if not loops.get(f):
+            raise EngineError("no loop found in translated kernel %s: %s" % (f, loops))
+    K29["sites"] = sites
+    K29["loops"] = loops
     return nlines, ncas
 
 
@@ -773,10 +813,16 @@ def _only_unwinding(o):
     return bool(o.res.failed) and all("unwinding assertion" in d for _, d in o.res.failed)
 
 
-def _loops(work, cfile, defines):
-    """loop ids of the flattened kernels, from cbmc --show-loops"""
-    rc, out, err = sh(["cbmc", cfile, "--show-loops", "-I", K.HERE, "-I", work] + [x for d in defines for x in ("-D", d)], timeout=120)
-    return re.findall(r"^Loop (\S+):", out, re.M)
+def _unwindset(opi, n, e):
+    """per-loop bounds of the kernel under test: findNode loops n+e, retry loop e+2 (checked by unwinding assertions)"""
+    fn = KFN[opi]
+    ids = sorted(K29["loops"][fn])
+    us = {}
+    expected = len(ids) == (1 if fn == "ds_find" else 3)   # findNode loop(s) [+ retry loop last]
+    for k, i in enumerate(ids):
+        outer = (fn != "ds_find") and k == len(ids) - 1
+        us["%s.%d" % (fn, i)] = ((e + 2) if outer else (n + e)) if expected else max(e + 2, n + e)
+    return us
 
 
 def run(tier, seed, only=None):
@@ -788,43 +834,54 @@ def run(tier, seed, only=None):
         nlines, ncas = _prepare(work)
         obls = []
         # (a)
-        for n in ((2, 3, 4) if thorough else (3, 4)):
+        for n in ((4, 3, 2) if thorough else (4,)):   # a forest over < 4 nodes plus isolated nodes is a forest over 4 nodes
             for opi, opn in enumerate(OPS):
                 obls.append(K.Obligation("seq:%s:N=%d" % (opn, n), [os.path.join(work, "uf_seq.c")], defines=["NN=%d" % n, "OP=%d" % opi],
                                          unwind=n + 2, timeout=240 if not thorough else 600, includes=[work], mem_gb=8,
                                          meta={"part": "a", "N": n, "op": opn, "_op": opi}))
-        # (b1) one complete real operation of another thread between two atomic accesses of the operation
-        pre_cfg = [(3, 1)] if not thorough else [(3, 1), (4, 1), (3, 2)]
-        for n, e in pre_cfg:
-            for opi, opn in enumerate(OPS):
-                for eop in (0, 2):
-                    if not thorough and not (opi == 0 and eop == 0):
-                        continue
-                    for excl in (False, True):
-                        name = "preempt%s:%s|%s:N=%d:E=%d" % ("-excl" if excl else "", opn, OPS[eop], n, e)
-                        obls.append(K.Obligation(name, [os.path.join(work, "uf_pre.c")],
-                                                 defines=["NN=%d" % n, "OP=%d" % opi, "EOP=%d" % eop, "ENV=%d" % e] + (["EXCL_KNOWN"] if excl else []),
-                                                 unwind=n + e + 2, timeout=200 if not thorough else 900, includes=[work], mem_gb=10,
-                                                 extra=["--object-bits", "12"],
-                                                 meta={"part": "b1", "N": n, "E": e, "op": opn, "env_op": OPS[eop], "excl_known": excl,
-                                                       "_op": opi, "_eop": eop, "_opt": thorough}))
+        # (b1) one complete operation of another thread between two atomic accesses of the operation
+        pre = os.path.join(work, "uf_pre.c")
+
+        def pre_ob(n, e, opi, eop, excl, site, cap, opt):
+            name = "preempt%s:%s|%s:N=%d:E=%d:%s" % ("-excl" if excl else "", OPS[opi], OPS[eop], n, e, "site=%d" % site if site else "allsites")
+            defs = ["NN=%d" % n, "OP=%d" % opi, "EOP=%d" % eop, "ENV=%d" % e] + (["EXCL_KNOWN"] if excl else []) + (["SITE=%d" % site] if site else [])
+            return K.Obligation(name, [pre], defines=defs, unwind=n + 2, unwindset=_unwindset(opi, n, e), timeout=cap, includes=[work], mem_gb=10,
+                                meta={"part": "b1", "N": n, "E": e, "op": OPS[opi], "env_op": OPS[eop], "excl_known": excl,
+                                      "site": site or "all", "_op": opi, "_eop": eop, "_opt": opt})
+        # finder + proof of the rest at N=2 (all pause points in one query)
+        obls.append(pre_ob(2, 1, 0, 0, False, None, 300, False))
+        obls.append(pre_ob(2, 1, 0, 0, True, None, 300, False))
+        if not thorough:
+            # N=3 at the pause sites around the link CAS (load and CAS inside the first updateRoot): lost-update / retry errors
+            us = K29["sites"]["ds_union"]
+            for site in us[-4:-2]:
+                obls.append(pre_ob(3, 1, 0, 0, True, site, 300, False))
         if thorough:
-            # (b2) abstract environment
-            for n, e in ((3, 1), (3, 2), (4, 1)):
+            for opi in (0, 1, 2):
+                for eop in (0, 2):
+                    if (opi, eop) != (0, 0):
+                        obls.append(pre_ob(2, 1, opi, eop, False, None, 400, True))
+            # N=3: one query per static pause site
+            for opi in (0, 1, 2):
+                for eop in (0, 2):
+                    for site in K29["sites"][KFN[opi]]:
+                        # the stale-rank class only arises in the operation's own link after another union: elsewhere excl == plain
+                        obls.append(pre_ob(3, 1, opi, eop, (opi, eop) == (0, 0), site, 400, True))
+            # (b2) abstract environment, known class excluded
+            rg = os.path.join(work, "uf_rg.c")
+            for n, e, per_site in ((2, 1, False), (2, 2, False), (3, 1, True)):
                 for opi, opn in enumerate(OPS):
-                    name = "rg-excl:%s:N=%d:E=%d" % (opn, n, e)
-                    obls.append(K.Obligation(name, [os.path.join(work, "uf_rg.c")],
-                                             defines=["NN=%d" % n, "OP=%d" % opi, "ENV=%d" % e, "EXCL_KNOWN"],
-                                             unwind=n + e + 2, timeout=900, includes=[work], mem_gb=10,
-                                             meta={"part": "b2", "N": n, "E": e, "op": opn, "excl_known": True, "_op": opi, "_opt": True}))
-            # (c)
-            for r1, r2 in itertools.combinations_with_replacement(range(3), 2):
-                for fresh in (True, False):
-                    name = "thr:%s|%s:N=3:%s" % (OPS[r1], OPS[r2], "fresh" if fresh else "anyforest")
-                    obls.append(K.Obligation(name, [os.path.join(work, "uf_thr.c")],
-                                             defines=["NN=3", "R1=%d" % r1, "R2=%d" % r2] + (["FRESH"] if fresh else []),
-                                             unwind=6, timeout=600, includes=[work], mem_gb=10,
-                                             meta={"part": "c", "N": 3, "roles": [OPS[r1], OPS[r2]], "fresh": fresh, "_roles": (r1, r2), "_opt": True}))
+                    for site in (K29["sites"][KFN[opi]] if per_site else [None]):
+                        name = "rg-excl:%s:N=%d:E=%d:%s" % (opn, n, e, "site=%d" % site if site else "allsites")
+                        obls.append(K.Obligation(name, [rg], defines=["NN=%d" % n, "OP=%d" % opi, "ENV=%d" % e, "EXCL_KNOWN"] + (["SITE=%d" % site] if site else []),
+                                                 unwind=n + 2, unwindset=_unwindset(opi, n, e), timeout=400, includes=[work], mem_gb=10,
+                                                 meta={"part": "b2", "N": n, "E": e, "op": opn, "excl_known": True, "site": site or "all", "_op": opi, "_opt": True}))
+            # (c) two native CBMC threads (measured: only find|find finishes; the others are attempted under a short cap)
+            for r1, r2 in ((2, 2), (1, 2), (0, 2), (0, 0)):
+                name = "thr:%s|%s:N=2:anyforest" % (OPS[r1], OPS[r2])
+                obls.append(K.Obligation(name, [os.path.join(work, "uf_thr.c")], defines=["NN=2", "R1=%d" % r1, "R2=%d" % r2],
+                                         unwind=3, timeout=240, includes=[work], mem_gb=10,
+                                         meta={"part": "c", "N": 2, "roles": [OPS[r1], OPS[r2]], "fresh": False, "_roles": (r1, r2), "_opt": True}))
         if only:
             obls = [o for o in obls if only in o.name]
         K.run_all(obls, jobs=6)
@@ -888,7 +945,7 @@ def run(tier, seed, only=None):
             "bounds": {"a_nodes": sorted(set(o.meta["N"] for o in parts["a"])), "rank_max": 200,
                        "b1_held": sorted(set((o.meta["N"], o.meta["E"]) for o in parts["b1"] if o.verdict == "holds")),
                        "b2_held": sorted(set((o.meta["N"], o.meta["E"]) for o in parts["b2"] if o.verdict == "holds")),
-                       "c": "2 threads x 1 operation, N=3" if any(o.verdict == "holds" for o in parts["c"]) else "not claimed"},
+                       "c_held": [o.name for o in parts["c"] if o.verdict == "holds"]},
             "per_part": {p: {"obligations": len(v), "held": sum(1 for o in v if o.verdict == "holds"),
                              "violated": sum(1 for o in v if o.verdict == "violated")} for p, v in parts.items()},
             "dropped": dropped,
